@@ -114,6 +114,18 @@ pub fn parse_leaf(content: &[u8]) -> Option<i64> {
 
 pub struct LeafLoader;
 
+/// A panic payload that is neither a `String` nor a `&str` (what `panic_any` / a cancellation gives).
+pub struct InjectedPanic(pub &'static str);
+static PANICS: std::sync::atomic::AtomicUsize = std::sync::atomic::AtomicUsize::new(0);
+/// Injected panics alternate between a message payload and an opaque one: containment must not depend on it.
+pub fn injected_panic(msg: &'static str) -> ! {
+    if PANICS.fetch_add(1, std::sync::atomic::Ordering::Relaxed) % 2 == 0 {
+        std::panic::panic_any(InjectedPanic(msg))
+    } else {
+        panic!("{msg}")
+    }
+}
+
 /// Loader faults: fail or panic at the k-th invocation (0-based) counted from arming.
 pub struct LoaderFault {
     pub at: usize,
@@ -147,7 +159,7 @@ impl<const I: usize> Loader<Leaf<I>> for LeafLoader {
         match outcome {
             Some(true) => {
                 crate::trace::emit(json!({"ev":"Loader","ext":ext,"res":"panic"}));
-                panic!("injected loader panic");
+                injected_panic("injected loader panic");
             }
             Some(false) => {
                 crate::trace::emit(json!({"ev":"Loader","ext":ext,"res":"fault"}));
